@@ -124,7 +124,22 @@ def family_a(tier):
 
 # ------------------------------------------------------------------------------------------ family B
 
-def render_cycle(pkg, kinds, entry, cut, two_mods, entry_style="plain", local_import=False):
+BUILTIN_LIKE = ["next", "iter", "filter", "format"]
+
+
+def render_cycle(pkg, kinds, entry, cut, two_mods, entry_style="plain", local_import=False, builtin_names=False):
+    files = _render_cycle(pkg, kinds, entry, cut, two_mods, entry_style, local_import)
+    if builtin_names:
+        # the members of the cycle are user functions whose names coincide with builtins
+        import re
+
+        for k in list(files):
+            for i in range(len(kinds)):
+                files[k] = re.sub(r"\bc%d\b" % i, BUILTIN_LIKE[i], files[k])
+    return files
+
+
+def _render_cycle(pkg, kinds, entry, cut, two_mods, entry_style="plain", local_import=False):
     """c_i --kinds[i]--> c_{(i+1)%n}; root plainly calls c_entry; if cut is not None that edge is replaced by a leaf call."""
     n = len(kinds)
     top = (lambda: [VLOG_IMPORT, ""]) if local_import else (lambda: [VLOG_IMPORT, f"import {pkg}.m0", f"import {pkg}.m1" if two_mods else "", ""])
@@ -195,7 +210,7 @@ def family_b(tier, excluded=None):
                                   "entry_style": ["plain", "keep", "direct"][k % 3],
                                   # function-local imports only inside one module (a sub-module that is first imported by a
                                   # function body does not exist yet when dds analyses the code)
-                                  "local_import": (k % 5 == 0) and not two})
+                                  "local_import": (k % 5 == 0) and not two, "builtin_names": k % 7 == 3})
             # the well-formed twin: one edge cut (entered at the member after the cut)
             cut = (len(cases)) % n
             cases.append({"fam": "B", "kinds": list(kinds), "entry": (cut + 1) % n, "cut": cut, "two": n > 1 and len(cases) % 2 == 0})
@@ -214,6 +229,9 @@ def render_nested_eval(pkg, chain, with_eval, via):
     if via == "alias" and with_eval:
         lines.insert(1, "from dds import eval as dds_eval")
         inner = "dds_eval(leaf)"
+    if via == "shadow" and with_eval:
+        lines.insert(1, "from dds import eval")   # the module-level name shadows the builtin of the same name
+        inner = "eval(leaf)"
     loc = ["    import dds"] if via == "local_import" else []
     lines += [f"def h{d}():"] + loc + [f"    vlog.rec('h{d}')", f"    return ('h{d}', {inner})", "", ""]
     for i in range(d - 1, 0, -1):
@@ -229,7 +247,7 @@ def family_c(tier):
     for d in (1, 2, 3, 4):
         for chain in itertools.product(["plain", "keep"], repeat=d):
             for with_eval in (True, False):
-                for via in (["attr", "alias", "local_import"] if with_eval else ["attr", "local_import"]):
+                for via in (["attr", "alias", "local_import", "shadow"] if with_eval else ["attr", "local_import"]):
                     cases.append({"fam": "C", "chain": list(chain), "with_eval": with_eval, "via": via})
     return cases
 
@@ -269,7 +287,7 @@ def render_case(case, pkg):
         return render_paths(pkg, case["paths"], case["placement"], case["special"])
     if case["fam"] == "B":
         return render_cycle(pkg, case["kinds"], case["entry"], case["cut"], case["two"],
-                            case.get("entry_style", "plain"), case.get("local_import", False))
+                            case.get("entry_style", "plain"), case.get("local_import", False), case.get("builtin_names", False))
     return render_nested_eval(pkg, case["chain"], case["with_eval"], case["via"])
 
 
